@@ -432,7 +432,7 @@ def r16_5(chk):
             if isinstance(root, ast.Name) and root.id == "self":
                 continue
             vals = fr.classify(root)
-            aliased = [v for v in vals if v != "fresh" and v[0] == "alias" and v[1] != "self"]
+            aliased = [v for v in vals if v != "fresh" and (v[0] == "alias" or (v[0] == "view" and text.endswith("]"))) and v[1] != "self"]
             chk.inst("R16.5", f"{f.ref}::{text}", not aliased, "store on a state built in this call" if not aliased else
                      f"`{text}` writes through {aliased}: the maneuver's delta-v is added to the propagator's stored initial orbit, "
                      f"so it is applied again at every later call", loc(f, node))
